@@ -309,3 +309,69 @@ pub fn chunking_trace(prop: Prop, name: &str, ps: &[Piece], mask: u64, variant: 
     t.run = mask;
     t
 }
+
+/// All corruptions confined to the 24 checksum bits: every non-zero XOR pattern
+/// whose top byte is `top` (65 536 patterns, 65 535 for top == 0). Any such
+/// pattern is a single-bit error or a burst of span <= 24, i.e. inside C04's
+/// guaranteed-detectable classes. Returns the first pattern the real framer
+/// does not reject as NotValid, as a one-frame trace carrying its ground truth.
+pub fn checksum_window_slice(frame: &CorpusFrame, top: u8) -> (u64, Option<StreamTrace>) {
+    use rtcm_rs::prelude::*;
+    let n = frame.bytes.len();
+    let mut buf = frame.bytes.clone();
+    let mut scan_buf: Vec<u8> = Vec::with_capacity(n + 16);
+    // complete candidates with a wrong checksum (L = 0 and L = 2)
+    const DEAD_L0: [u8; 6] = [0xD3, 0x00, 0x00, 0x00, 0x00, 0x00];
+    const DEAD_L2: [u8; 8] = [0xD3, 0x00, 0x02, 0x41, 0x42, 0x00, 0x00, 0x00];
+    let mut done = 0u64;
+    for low in 0..=0xFFFFu32 {
+        let pat = ((top as u32) << 16) | low;
+        if pat == 0 {
+            continue;
+        }
+        buf[n - 3] = frame.bytes[n - 3] ^ (pat >> 16) as u8;
+        buf[n - 2] = frame.bytes[n - 2] ^ (pat >> 8) as u8;
+        buf[n - 1] = frame.bytes[n - 1] ^ pat as u8;
+        done += 1;
+        let mut rejected = matches!(std::panic::catch_unwind(std::panic::AssertUnwindSafe(|| MessageFrame::new(&buf).map(|_| ()))), Ok(Err(RtcmError::NotValid)));
+        let mut prefix: &[u8] = &[];
+        if rejected {
+            // the same damaged frame behind a complete candidate that fails its checksum, in ONE
+            // scanner call (state carried from one candidate to the next inside a call would show here)
+            for pre in [&DEAD_L0[..], &DEAD_L2[..]] {
+                scan_buf.clear();
+                scan_buf.extend_from_slice(pre);
+                scan_buf.extend_from_slice(&buf);
+                let delivered_here = std::panic::catch_unwind(std::panic::AssertUnwindSafe(|| {
+                    let (_c, f) = next_msg_frame(&scan_buf);
+                    f.map(|f| (f.frame_data().as_ptr() as usize).wrapping_sub(scan_buf.as_ptr() as usize) == pre.len()).unwrap_or(false)
+                }))
+                .unwrap_or(true);
+                done += 1;
+                if delivered_here {
+                    rejected = false;
+                    prefix = pre;
+                    break;
+                }
+            }
+        }
+        if !rejected {
+            let bits: Vec<u32> = (0..24u32).filter(|b| (pat >> (23 - b)) & 1 == 1).map(|b| (n as u32 - 3) * 8 + b).collect();
+            let class = if bits.len() == 1 { "flip1" } else { "burst" };
+            let mut p = piece(&format!("{}+{}", frame.label, class), "lib", buf.clone(), false);
+            assert!(c04_pattern_ok(class, &bits, n));
+            p.c04 = Some((class.to_string(), bits));
+            let mut pieces = Vec::new();
+            if !prefix.is_empty() {
+                pieces.push(piece("noise:dead_candidate", "noise", prefix.to_vec(), false));
+            }
+            pieces.push(p);
+            pieces.push(piece(&frame.label, "lib", frame.bytes.clone(), true));
+            let mut t = build(Prop::C04, "checksum_window", pieces, vec![], vec![], 1, "one_shot");
+            t.origin = format!("sweep:c04:checksum_window:{}:{:06x}", frame.label, pat);
+            t.run = pat as u64;
+            return (done, Some(t));
+        }
+    }
+    (done, None)
+}
